@@ -507,3 +507,539 @@ def _count_constraints(conds):
             s = count_set('>=', 0) - s
         allowed = allowed & s
     return allowed
+
+
+# ==============================================================================================
+# C04 rules
+
+ENV = 'emd.sift.interp_envelope'
+
+
+def _envelope_atoms(alg, p):
+    """Atoms of polynomial p that are envelope calls: {atom: (mode, X poly, other kwargs canon)}"""
+    out = {}
+    for a in p.atoms():
+        t = alg.atom_terms.get(a)
+        if t is not None and t[0] == 'call' and t[1] == ENV:
+            kw = dict(t[3])
+            mode = kw.get('mode')
+            sig = kw.get('X')
+            rest = tuple(sorted((k, alg.canon(v)) for k, v in kw.items() if k not in ('mode', 'X')))
+            out[a] = (mode[1] if mode is not None and is_c(mode) else None,
+                      alg.poly(sig) if sig is not None else None, rest)
+    return out
+
+
+def _check_mean_removed(alg, comp_poly, iter_poly, scale):
+    """comp == iter - scale/2 * U(iter) - scale/2 * L(iter) with identical options. Returns None or reason."""
+    from fractions import Fraction
+    envs = _envelope_atoms(alg, comp_poly)
+    modes = sorted(m for m, _, _ in envs.values() if m)
+    if modes != ['lower', 'upper']:
+        return 'expected exactly one upper and one lower envelope term, found modes %s' % modes
+    rests = {r for _, _, r in envs.values()}
+    if len(rests) != 1:
+        return 'upper and lower envelopes are computed with different options'
+    for a, (m, sig, r) in envs.items():
+        if sig != iter_poly:
+            return 'the %s envelope is not computed from the current iterate (stale or different signal)' % m
+    expected = iter_poly
+    for a in envs:
+        expected = expected - (Poly.atom(a) * scale).scale(Fraction(1, 2))
+    if comp_poly != expected:
+        return 'expected %s, found %s' % (str(expected)[:160], str(comp_poly)[:160])
+    return None
+
+
+def _iterate_var(P, gni):
+    """Name of the variable holding the current iterate: the signal argument of the envelope calls in the loop."""
+    names = set()
+    for loop in [n for n in walk_local(gni.node) if isinstance(n, ast.While)]:
+        for n in ast.walk(loop):
+            if isinstance(n, ast.Call):
+                ca = P.resolve_callee(gni.module, gni, n.func)
+                if ca.kind == 'repo' and ca.dotted == ENV:
+                    if n.args and isinstance(n.args[0], ast.Name):
+                        names.add((n.args[0].id, loop))
+    if len({a for a, _ in names}) != 1:
+        # keep the candidates that the loop itself updates (the iterate changes, a stale signal does not)
+        upd = set()
+        for a, loop in names:
+            for n in ast.walk(loop):
+                if isinstance(n, ast.Name) and n.id == a and isinstance(n.ctx, ast.Store):
+                    upd.add((a, loop))
+        names = upd
+    if len({a for a, _ in names}) != 1:
+        raise AnalysisError('%s: cannot identify the iterate variable of the sifting loop' % gni.qualname)
+    return next(iter(names))
+
+
+def _no_envelope_path(e):
+    """The path left the sifting loop because an envelope of the iterate was None."""
+    for c, truth, ln in e.state.conds:
+        if truth and c[0] == 'cmp' and c[1] == 'is' and is_c(c[3]) and c[3][1] is None \
+                and c[2][0] == 'call' and c[2][1] == ENV:
+            return True
+    return False
+
+
+def rule_iterate_algebra(ctx, rid, gni, step_formal='env_step_size'):
+    P = ctx.P
+    itvar, loop = _iterate_var(P, gni)
+    x0 = gni.params[0]
+    tag = 'L%d' % loop.lineno
+    head_atom = S('%s@%s' % (itvar, tag))
+    for sm in STOP_METHODS:
+        exits = extraction_exits(ctx, gni, {'stop_method': sm, 'energy_thresh': None})
+        alg = mk_algebra()
+        X = alg.poly(S(x0))
+        H = alg.poly(head_atom)
+        step = alg.poly(S(step_formal))
+        # (a) returned on stop: flag True exits
+        n_stop = 0
+        n_noenv = 0
+        err = None
+        for e in exits:
+            if e.kind != 'return':
+                continue
+            sp = _split_result(e)
+            if sp is None or not (is_c(sp[1]) and sp[1][1] is True):
+                continue
+            comp = alg.poly(sp[0])
+            it = H if any(a == head_atom[1] or ('X=' + head_atom[1]) in a for a in comp.atoms()) else X
+            if _no_envelope_path(e):
+                # "the first iterate left with too few extrema": returned as it is
+                n_noenv += 1
+                if comp != it:
+                    err = (e, 'iterate without envelopes is not returned unchanged: %s' % str(comp)[:120])
+                    break
+                continue
+            why = _check_mean_removed(alg, comp, it, Poly.const(1))
+            n_stop += 1
+            if why:
+                err = (e, why)
+                break
+        c1 = 'stop_method=%s: returned IMF == iterate - (U+L)/2' % sm
+        if err:
+            ctx.violation(rid, gni, c1, 'the component returned when the stop rule fires is not the iterate with '
+                          'its full envelope mean removed: ' + err[1], node=err[0].node, path=trace_tail(err[0].state))
+        elif n_stop == 0:
+            ctx.violation(rid, gni, c1, 'no path returns an IMF with the continue flag set')
+        else:
+            ctx.passed(rid, gni, c1, '%d stop exits, %d late no-envelope exits returning the iterate unchanged'
+                       % (n_stop, n_noenv))
+        # (b) non-stop update at the back edges that continue
+        summ = None
+        for e in exits:
+            for ls in e.state.loops:
+                if ls.node is loop:
+                    summ = ls
+        if summ is None:
+            ctx.undecided(rid, gni, 'stop_method=%s: next iterate' % sm, 'no loop summary')
+            continue
+        n_upd = 0
+        err = None
+        for kind, b in summ.body_states:
+            ev = Evaluator(P)
+            tr = ev.truth(_term_of_test(loop.test, b), b)
+            if tr is False:
+                continue
+            nv = alg.poly(b.env[itvar])
+            it = X if kind == 'back' else H
+            why = _check_mean_removed(alg, nv, it, step)
+            n_upd += 1
+            if why:
+                err = (b, why)
+                break
+        c2 = 'stop_method=%s: next iterate == iterate - step*(U+L)/2' % sm
+        if err:
+            ctx.violation(rid, gni, c2, 'the sifting update is not the previous iterate minus the step-scaled '
+                          'envelope mean: ' + err[1], node=loop, path=trace_tail(err[0]))
+        elif n_upd == 0:
+            ctx.violation(rid, gni, c2, 'no continuing path through the sifting loop')
+        else:
+            ctx.passed(rid, gni, c2, '%d continuing back-edge states' % n_upd)
+
+
+def _term_of_test(test, st):
+    if isinstance(test, ast.Name):
+        return st.env.get(test.id, S(test.id))
+    raise AnalysisError('loop test is not a flag variable', node=test)
+
+
+STOP_FUNCS = {'sd': 'emd.sift.sd_stop', 'rilling': 'emd.sift.rilling_stop', 'fixed': 'emd.sift.fixed_stop'}
+
+
+def rule_stop_dispatch(ctx, rid, gni):
+    """stop_method literal -> stop function with the right actuals on the right formals."""
+    P = ctx.P
+    itvar, loop = _iterate_var(P, gni)
+    x0 = gni.params[0]
+    head_atom = S('%s@L%d' % (itvar, loop.lineno))
+    for sm in STOP_METHODS:
+        exits = extraction_exits(ctx, gni, {'stop_method': sm, 'energy_thresh': None})
+        alg = mk_algebra()
+        X = alg.poly(S(x0))
+        H = alg.poly(head_atom)
+        seen = 0
+        err = None
+        for e in exits:
+            if e.kind != 'return':
+                continue
+            sp = _split_result(e)
+            if sp is None or not (is_c(sp[1]) and sp[1][1] is True):
+                continue
+            if _no_envelope_path(e):
+                continue
+            # the deciding `if stop` condition of this path: last cond that is True and mentions a stop function
+            stopc = None
+            for c, truth, ln in e.state.conds:
+                calls = [x for x in subterms(c) if x[0] == 'call' and x[1] in STOP_FUNCS.values()]
+                if truth and calls:
+                    stopc = (c, calls[0])
+                if truth and c[0] == 's' and c[1].startswith('global:'):
+                    stopc = (c, None)
+            if stopc is None:
+                err = (e, 'the IMF is returned without consulting a stop function')
+                break
+            c, call = stopc
+            if call is None:
+                err = (e, 'stop decision reads an undefined value for this stop_method')
+                break
+            seen += 1
+            if call[1] != STOP_FUNCS[sm]:
+                err = (e, "stop_method '%s' dispatches to %s" % (sm, call[1]))
+                break
+            kw = dict(call[3])
+            pass1 = not any(head_atom[1] in alg.canon(v) for v in kw.values())
+            it = X if pass1 else H
+            if sm == 'sd':
+                a, b, sd = kw.get('proto_imf'), kw.get('prev_imf'), kw.get('sd')
+                if a is None or b is None or sd is None:
+                    err = (e, 'sd_stop formals renamed or unbound')
+                    break
+                if alg.poly(a) != it:
+                    err = (e, 'sd_stop reference signal (denominator) is not the current iterate: %s'
+                           % str(alg.poly(a))[:80])
+                    break
+                why = _check_mean_removed(alg, alg.poly(b), it, Poly.const(1))
+                if why:
+                    err = (e, 'sd_stop candidate is not iterate minus envelope mean: ' + why)
+                    break
+                if sd != S('sd_thresh'):
+                    err = (e, 'sd_stop threshold is not sd_thresh: %s' % show(sd))
+                    break
+            elif sm == 'rilling':
+                up, lo = kw.get('upper_env'), kw.get('lower_env')
+                ok = True
+                for arg, mode in ((up, 'upper'), (lo, 'lower')):
+                    if arg is None or arg[0] != 'call' or arg[1] != ENV or dict(arg[3]).get('mode') != C(mode) \
+                            or alg.poly(dict(arg[3]).get('X')) != it:
+                        err = (e, 'rilling_stop %s_env is not the %s envelope of the current iterate' % (mode, mode))
+                        ok = False
+                        break
+                if not ok:
+                    break
+                for formal, idx in (('sd1', 0), ('sd2', 1), ('tol', 2)):
+                    if kw.get(formal) != ('sub', S('rilling_thresh'), C(idx)):
+                        err = (e, 'rilling_stop %s is not rilling_thresh[%d]: %s' % (formal, idx, show(kw.get(formal))))
+                        ok = False
+                        break
+                if not ok:
+                    break
+            elif sm == 'fixed':
+                n, m = kw.get('niters'), kw.get('max_iters')
+                if m != S('max_iters'):
+                    err = (e, 'fixed_stop limit is not max_iters: %s' % show(m))
+                    break
+                lo = Evaluator(P).bounds(n, e.state)[0] if n is not None else None
+                if n is None or lo is None or lo < 1:
+                    err = (e, 'fixed_stop count is not the 1-based iteration counter: %s' % show(n))
+                    break
+        c = "stop_method '%s' -> %s with documented actuals" % (sm, STOP_FUNCS[sm].split('.')[-1])
+        if err:
+            ctx.violation(rid, gni, c, err[1], node=err[0].node, path=trace_tail(err[0].state))
+        elif seen == 0:
+            ctx.violation(rid, gni, c, 'no IMF-returning path consults the stop function')
+        else:
+            ctx.passed(rid, gni, c, '%d stop decisions' % seen)
+
+
+def rule_stop_predicates(ctx, rid):
+    """Normal forms of the three stop predicates vs. the documented ones."""
+    from ..boolnorm import nnf, show_nnf
+    P = ctx.P
+    alg = mk_algebra()
+
+    def ret0(qual):
+        fi = P.func(qual)
+        exits = Evaluator(P).run(fi)
+        vals = set()
+        for e in exits:
+            if e.kind == 'return':
+                v = e.value
+                if v[0] == 'tuple' and v[1]:
+                    v = v[1][0]
+                vals.add(v)
+        return fi, vals
+
+    def sq(x):
+        return ('bin', '**', x, C(2))
+
+    def npsum(x):
+        return ('call', 'numpy.sum', (x,), ())
+    # sd
+    fi, vals = ret0('emd.sift.sd_stop')
+    a, b, sd = S(fi.params[0]), S(fi.params[1]), S('sd')
+    spec = ('cmp', '<', ('bin', '/', npsum(sq(('bin', '-', a, b))), npsum(sq(a))), sd)
+    _cmp_pred(ctx, rid, fi, alg, vals, spec, 'sd_stop: stop <=> sum((a-b)^2)/sum(a^2) < sd')
+    # rilling
+    fi, vals = ret0('emd.sift.rilling_stop')
+    u, l = S(fi.params[0]), S(fi.params[1])
+
+    def npabs(x):
+        return ('call', 'numpy.abs', (x,), ())
+    E = ('bin', '/', npabs(('bin', '/', ('bin', '+', u, l), C(2))), ('bin', '/', npabs(('bin', '-', u, l)), C(2)))
+    c1 = ('cmp', '>', ('call', 'numpy.mean', (('cmp', '>', E, S('sd1')),), ()), S('tol'))
+    c2 = ('call', 'numpy.any', (('cmp', '>', E, S('sd2')),), ())
+    spec = ('un', 'not', ('or', (c1, c2)))
+    _cmp_pred(ctx, rid, fi, alg, vals, spec,
+              'rilling_stop: stop <=> not(mean(E>sd1) > tol or any(E>sd2)), E=|(U+L)/2|/(|U-L|/2)')
+    # fixed
+    fi, vals = ret0('emd.sift.fixed_stop')
+    spec = ('cmp', '==', S(fi.params[0]), S(fi.params[1]))
+    _cmp_pred(ctx, rid, fi, alg, vals, spec, 'fixed_stop: stop <=> niters == max_iters')
+
+
+def _cmp_pred(ctx, rid, fi, alg, vals, spec, construct):
+    from ..boolnorm import nnf, show_nnf
+    if len(vals) != 1:
+        ctx.undecided(rid, fi, construct, 'stop value differs between paths (%d forms)' % len(vals))
+        return
+    got = nnf(next(iter(vals)), alg)
+    want = nnf(spec, alg)
+    if got == want:
+        ctx.passed(rid, fi, construct, show_nnf(got)[:200])
+    else:
+        ctx.violation(rid, fi, construct, 'stop predicate differs from the documented criterion',
+                      expected=show_nnf(want)[:300], found=show_nnf(got)[:300])
+
+
+def rule_bounded_loop(ctx, rid, gni, limit='max_iters', exc='emd.support.EMDSiftCovergeError'):
+    P = ctx.P
+    itvar, loop = _iterate_var(P, gni)
+    ev0 = Evaluator(P)
+    for sm in STOP_METHODS:
+        exits = extraction_exits(ctx, gni, {'stop_method': sm, 'energy_thresh': None})
+        alg = mk_algebra()
+        summ = None
+        for e in exits:
+            for ls in e.state.loops:
+                if ls.node is loop:
+                    summ = ls
+        if summ is None:
+            ctx.undecided(rid, gni, 'stop_method=%s: bounded loop' % sm, 'no loop summary')
+            continue
+        # counter: a variable with +1 per iteration on every back edge
+        counters = None
+        for kind, b in summ.body_states:
+            cs = set()
+            for name, head in summ.head_env.items():
+                if name not in b.env or kind != 'back2':
+                    continue
+                d = alg.poly(b.env[name]) - alg.poly(head)
+                if d == Poly.const(1):
+                    cs.add(name)
+            if kind == 'back2':
+                counters = cs if counters is None else (counters & cs)
+        c_inc = 'stop_method=%s: iteration counter incremented exactly once per iteration' % sm
+        if not counters:
+            ctx.violation(rid, gni, c_inc, 'no variable increases by exactly one on every path through the loop body',
+                          node=loop)
+            continue
+        ctx.passed(rid, gni, c_inc, 'counter(s): %s' % ', '.join(sorted(counters)), node=loop)
+        if sm == 'fixed':
+            # termination by equality on the same counter (integer limit >= 1 assumed)
+            ctx.assume("stop_method='fixed': max_iters is an integer >= 1 (documented 'int > 0')")
+            continue
+        c_guard = 'stop_method=%s: limit guard passed before every increment, raising the convergence error' % sm
+        raises = [e for e in exits if e.kind == 'raise' and e.value[0] == 'call' and e.value[1] == exc]
+        ok_raise = False
+        for e in raises:
+            for c, truth, ln in e.state.conds:
+                if truth and c[0] == 'cmp' and c[1] in ('>', '>=') and c[3] == S(limit) \
+                        and any(c[2] == summ.head_env.get(n) for n in counters):
+                    ok_raise = True
+        if not ok_raise:
+            ctx.violation(rid, gni, c_guard, 'no path raises the convergence error when the counter exceeds max_iters',
+                          node=loop, expected='raise %s under counter > %s' % (exc.split('.')[-1], limit),
+                          found='%d raise exits' % len(raises))
+            continue
+        bad = None
+        for kind, b in summ.body_states:
+            if kind != 'back2':
+                continue
+            passed = False
+            for c, truth, ln in b.conds:
+                if c[0] != 'cmp':
+                    continue
+                is_counter = any(c[2] == summ.head_env.get(n) for n in counters)
+                if is_counter and c[1] in ('>', '>=') and c[3] == S(limit) and truth is False:
+                    passed = True
+                if is_counter and c[1] == '==' and truth is True and _floor_fraction_of(c[3], S(limit)):
+                    passed = True      # lemma: k*m//d <= m for 0 <= k <= d, m >= 0
+            if not passed:
+                bad = b
+                break
+        if bad is not None:
+            ctx.violation(rid, gni, c_guard, 'a path through the loop body reaches the increment without the '
+                          'limit test', node=loop, path=trace_tail(bad))
+        else:
+            ctx.passed(rid, gni, c_guard, '%d raise exits; guard on every iteration>=2 body path' % len(raises))
+
+
+def _floor_fraction_of(t, limit):
+    """t == k*limit//d with integers 0 <= k <= d, d > 0."""
+    if t[0] == 'bin' and t[1] == '//' and is_c(t[3]) and isinstance(t[3][1], int) and t[3][1] > 0:
+        d = t[3][1]
+        n = t[2]
+        if n == limit:
+            return True
+        if n[0] == 'bin' and n[1] == '*':
+            for k, m in ((n[2], n[3]), (n[3], n[2])):
+                if is_c(k) and isinstance(k[1], int) and 0 <= k[1] <= d and m == limit:
+                    return True
+    return False
+
+
+def rule_extraction_loop_exits(ctx, rid, gni):
+    """The sifting loop is left only because the stop rule fired or an envelope is missing."""
+    P = ctx.P
+    itvar, loop = _iterate_var(P, gni)
+    flag = _flag_var(loop)
+    if flag is None:
+        ctx.undecided(rid, gni, 'sifting loop condition', 'not a flag variable', node=loop)
+        return
+    # names assigned from stop functions
+    stop_vars = set()
+    env_vars = set()
+    for n in ast.walk(loop):
+        if isinstance(n, ast.Assign) and isinstance(n.value, ast.Call):
+            ca = P.resolve_callee(gni.module, gni, n.value.func)
+            if ca.kind == 'repo' and ca.dotted in STOP_FUNCS.values():
+                t = n.targets[0]
+                if isinstance(t, ast.Tuple):
+                    t = t.elts[0]
+                if isinstance(t, ast.Name):
+                    stop_vars.add(t.id)
+            if ca.kind == 'repo' and ca.dotted == ENV:
+                t = n.targets[0]
+                if isinstance(t, ast.Name):
+                    env_vars.add(t.id)
+    n_ok = 0
+    for n in ast.walk(loop):
+        ex = None
+        if isinstance(n, ast.Assign) and any(isinstance(t, ast.Name) and t.id == flag for t in n.targets):
+            if isinstance(n.value, ast.Constant) and n.value.value is True:
+                continue
+            ex = n
+        elif isinstance(n, (ast.Break, ast.Return)) and _innermost_loop(gni, n) is loop:
+            ex = n
+        if ex is None:
+            continue
+        guards = _conjuncts(guards_of(gni, ex, upto=loop))
+        kinds = []
+        for t, pol in guards:
+            if pol and isinstance(t, ast.Name) and t.id in stop_vars:
+                kinds.append('stop')
+            elif pol and _is_none_test(t, env_vars):
+                kinds.append('none')
+            else:
+                kinds.append(None)
+        if kinds and all(k is not None for k in kinds) and len(set(kinds)) == 1:
+            n_ok += 1
+            continue
+        ctx.violation(rid, gni, 'unlicensed exit of the sifting loop: ' + _norm_guard(guards_of(gni, ex, upto=loop)),
+                      'the sifting loop can be left for a reason other than "stop rule fired" or "envelope missing" '
+                      '(an unconverged iterate would be returned silently)', node=ex)
+    if n_ok >= 2:
+        ctx.passed(rid, gni, 'sifting loop exits are {stop fired, envelope missing}', '%d exit sites' % n_ok, node=loop)
+    else:
+        ctx.violation(rid, gni, 'sifting loop exits are {stop fired, envelope missing}',
+                      'expected an exit on the stop rule and one on missing envelopes, found %d' % n_ok, node=loop)
+
+
+def _is_none_test(t, env_vars):
+    """`u is None or l is None` over envelope variables (any non-empty subset)."""
+    parts = t.values if isinstance(t, ast.BoolOp) and isinstance(t.op, ast.Or) else [t]
+    if not parts:
+        return False
+    for p in parts:
+        if not (isinstance(p, ast.Compare) and len(p.ops) == 1 and isinstance(p.ops[0], ast.Is)
+                and isinstance(p.left, ast.Name) and p.left.id in env_vars
+                and isinstance(p.comparators[0], ast.Constant) and p.comparators[0].value is None):
+            return False
+    return True
+
+
+def rule_energy_stop(ctx, rid, gni):
+    P = ctx.P
+    x0 = gni.params[0]
+    alg = mk_algebra()
+    X = alg.poly(S(x0))
+    ev = Evaluator(P)
+    exits = ev.run(gni, context={'stop_method': 'sd'})
+    ctx.paths += len(exits)
+    n_energy = 0
+    bad = None
+    for e in exits:
+        if e.kind != 'return':
+            continue
+        sp = _split_result(e)
+        if sp is None:
+            continue
+        comp, flag = sp
+        en = None
+        for c, truth, ln in e.state.conds:
+            if c[0] == 'cmp' and c[1] in ('is', 'isnot') and c[2] == S('energy_thresh'):
+                en = (c[1] == 'isnot') == truth
+        if not en:
+            continue
+        # paths with a threshold: the energy comparison must be present and decide the flag
+        dec = None
+        for c, truth, ln in e.state.conds:
+            if c[0] == 'cmp' and c[1] in ('>', '>=') and c[3] == S('energy_thresh') and c[2][0] == 'call' \
+                    and c[2][1] == 'emd.sift._energy_difference':
+                dec = (c, truth)
+        if dec is None:
+            bad = (e, 'energy threshold given but never compared')
+            break
+        c, truth = dec
+        kw = dict(c[2][3])
+        if alg.poly(kw.get('imf', NONE)) != X or alg.poly(kw.get('residue', NONE)) != X - alg.poly(comp):
+            bad = (e, 'energy difference is not computed between the input and input-minus-component')
+            break
+        if truth:
+            n_energy += 1
+            if not (is_c(flag) and flag[1] is False):
+                bad = (e, 'energy ratio above threshold does not clear the continue flag')
+                break
+    c = 'energy threshold: flag cleared iff 20log10(sum X^2) - 20log10(sum (X-imf)^2) > energy_thresh'
+    if bad:
+        ctx.violation(rid, gni, c, bad[1], node=bad[0].node, path=trace_tail(bad[0].state))
+    elif n_energy == 0:
+        ctx.violation(rid, gni, c, 'no path stops the sift on the energy ratio')
+    else:
+        # the metric itself
+        ed = P.func('emd.sift._energy_difference')
+        vals = {e.value for e in Evaluator(P).run(ed) if e.kind == 'return'}
+        a, b = S(ed.params[0]), S(ed.params[1])
+
+        def db(x):
+            return ('bin', '*', C(20), ('call', 'numpy.log10', (('call', 'numpy.sum', (('bin', '**', x, C(2)),), ()),), ()))
+        want = alg.poly(('bin', '-', db(a), db(b)))
+        if len(vals) == 1 and alg.poly(next(iter(vals))) == want:
+            ctx.passed(rid, gni, c, '%d energy-stop exits; metric == %s' % (n_energy, str(want)[:80]))
+        else:
+            ctx.violation(rid, ed, c, 'energy metric differs from 20log10(sum imf^2) - 20log10(sum residue^2)',
+                          expected=str(want)[:200], found='; '.join(str(alg.poly(v))[:200] for v in vals))
